@@ -19,6 +19,8 @@ EXPLANATION = (
     "on another forwards cancel(). Not decided: behaviours of user cancellers (value flow), full history enumeration."
 )
 ASSUMPTIONS = ["self.called is written only by _startRunCallbacks (checked: who-may-write rule)"]
+# every rule of this module is decided on the CFG / def-use shape of the code; nothing is evaluated
+RULE_KINDS = {"*": "structural"}
 
 
 def _is_self_attr(node, name):
